@@ -37,9 +37,12 @@ Inductive node :=
 | NHet (sum : bool) (lk : lookup) (cs : list (attrs * node))
 | NHom (n : N) (t : node).
 
+Inductive gerr := GAbsent | GAccess (m : N).
+Definition gerr_err (g : gerr) : err := match g with GAbsent => Absent 0 | GAccess m => Access 0 m end.
+
 Inductive value :=
 | VLeaf (x : N)
-| VGate (blocked : op -> option err) (v : value)    (* what the wrapper raises for each op, at depth 0 *)
+| VGate (blocked : op -> option gerr) (v : value)   (* what the wrapper raises for each op *)
 | VProd (vs : list value)
 | VSum (active : option nat) (v : value).
 
@@ -99,7 +102,7 @@ Fixpoint run (o : op) (p : payload) (t : node) (v : value) (k : K) {struct t} : 
   | NGate t' =>
       match v with
       | VGate b c => match b o with
-                     | Some e => (RErr e, v, [])
+                     | Some e => (RErr (gerr_err e), v, [])
                      | None => let '(r, c', lg) := run o p t' c k in (r, VGate b c', lg) end
       | _ => (RErr Unreachable, v, [])
       end
@@ -169,7 +172,7 @@ Fixpoint walk (o : op) (p : payload) (t : node) (d : nat) (v : value) (k : K) {s
   | NGate t' =>
       match v with
       | VGate b c => match b o with
-                     | Some e => (RErr (shift d e), v, [])
+                     | Some e => (RErr (shift d (gerr_err e)), v, [])
                      | None => let '(r, c', lg) := walk o p t' d c k in (r, VGate b c', lg) end
       | _ => (RErr Unreachable, v, [])
       end
@@ -287,6 +290,154 @@ Proof.
     + simpl. rewrite Nat.add_0_r. reflexivity.
     + simpl. replace (d + 1) with (S d) by lia. reflexivity.
 Qed.
+
+(* ====================================================================== *)
+(* C01 core: a deserializing write changes exactly the designated leaf;     *)
+(* every failure other than a validator rejection leaves the tree unchanged *)
+(* ====================================================================== *)
+Fixpoint vset (v : value) (path : list nat) (x : value) {struct v} : value :=
+  match v with
+  | VLeaf _ => x
+  | VGate b c => VGate b (vset c path x)
+  | VSum a c => VSum a (vset c path x)
+  | VProd vs =>
+      match path with
+      | [] => v
+      | i :: rest =>
+          VProd ((fix go (vs : list value) (j : nat) {struct vs} : list value :=
+                    match vs with
+                    | [] => []
+                    | c :: r => match j with O => vset c rest x :: r | S j' => c :: go r j' end
+                    end) vs i)
+      end
+  end.
+
+Definition updated (r : res) : bool :=
+  match r with ROk _ => true | RErr (Invalid _ _) => true | _ => false end.
+
+Definition frame (p : payload) (v : value) (x : out) : Prop :=
+  let '(r, v', _) := x in
+  if updated r then exists path y, dec p = Some y /\ v' = vset v path (VLeaf y)
+  else v' = v.
+
+Lemma set_nth_same {A} (l : list A) : forall i c, nth_error l i = Some c -> set_nth l i c = l.
+Proof.
+  induction l as [|a l IH]; intros [|i] c H; simpl in *; try discriminate.
+  - injection H as ->. reflexivity.
+  - f_equal. apply IH. exact H.
+Qed.
+
+Lemma vset_prod vs i c rest x : nth_error vs i = Some c ->
+  vset (VProd vs) (i :: rest) x = VProd (set_nth vs i (vset c rest x)).
+Proof.
+  intros H. cbn [vset]. f_equal. revert i H.
+  induction vs as [|a vs IH]; intros [|i] H; simpl in *; try discriminate.
+  - injection H as ->. reflexivity.
+  - f_equal. apply IH. exact H.
+Qed.
+
+Lemma frame_incr p v x : frame p v x -> frame p v (incr_out x).
+Proof. destruct x as [[r v'] lg]. destruct r as [d|[]]; simpl; auto. Qed.
+
+Lemma frame_with_child p sum v i f :
+  (forall c, frame p c (f c)) -> frame p v (with_child sum v i f).
+Proof.
+  intros H. unfold with_child. destruct sum, v as [x|b c|vs|act c]; simpl; try reflexivity.
+  - destruct act as [j|]; simpl; [|reflexivity].
+    destruct (Nat.eqb i j); simpl; [|reflexivity].
+    specialize (H c). destruct (f c) as [[r c'] lg]. simpl in *.
+    destruct (updated r).
+    + destruct H as [path [y [Hd ->]]]. exists path, y. split; [exact Hd|reflexivity].
+    + subst. reflexivity.
+  - destruct (nth_error vs i) as [c|] eqn:E; simpl; [|reflexivity].
+    specialize (H c). destruct (f c) as [[r c'] lg]. simpl in *.
+    destruct (updated r).
+    + destruct H as [path [y [Hd ->]]]. exists (i :: path), y. split; [exact Hd|].
+      symmetry. apply vset_prod. exact E.
+    + subst. rewrite set_nth_same by exact E. reflexivity.
+Qed.
+
+Lemma frame_arm p a c f :
+  frame p c (f c) -> frame p c (arm ODe a c f).
+Proof.
+  intros H. unfold arm. destruct (a_deny a ODe); [reflexivity|].
+  destruct (a_getmut a) as [[m|]|]; try reflexivity.
+  - destruct (f c) as [[r c'] lg]. simpl in *.
+    destruct r as [d|e]; [|exact H].
+    destruct (a_val a) as [[[d'|]|m]|]; simpl in *; exact H.
+  - destruct (f c) as [[r c'] lg]. simpl in *.
+    destruct r as [d|e]; [|exact H].
+    destruct (a_val a) as [[[d'|]|m]|]; simpl in *; exact H.
+Qed.
+
+Theorem write_frame p : forall t v k, frame p v (run ODe p t v k).
+Proof.
+  induction t as [lk|t IH|s a t IH|s lk cs IH|n t IH] using node_ind'; intros v k.
+  - cbn [run]. destruct (kfin k); simpl; [|reflexivity].
+    destruct lk; [|reflexivity].
+    destruct v as [x|b c|vs|act c]; simpl; try reflexivity.
+    destruct (dec p) as [y|] eqn:E; simpl; [|reflexivity].
+    exists [], y. split; [first [exact E|reflexivity]|reflexivity].
+  - cbn [run]. destruct v as [x|b c|vs|act c]; simpl; try reflexivity.
+    destruct (b ODe) as [[|m]|]; simpl; [reflexivity|reflexivity|].
+    specialize (IH c k). destruct (run ODe p t c k) as [[r c'] lg]. simpl in *.
+    destruct (updated r).
+    + destruct IH as [path [y [Hd ->]]]. exists path, y. split; [exact Hd|reflexivity].
+    + subst. reflexivity.
+  - cbn [run]. apply frame_with_child. intros c. apply frame_arm. apply IH.
+  - cbn [run]. destruct (knext k lk) as [i k'| |]; try reflexivity.
+    apply frame_incr. apply frame_with_child. intros c.
+    generalize (N.to_nat i). induction IH as [|[a t'] r Ht _ IHr]; intros j; [reflexivity|].
+    destruct j as [|j]; [|apply IHr]. apply frame_arm. apply Ht.
+  - cbn [run]. destruct (knext k (Homog n)) as [i k'| |]; try reflexivity.
+    apply frame_incr. apply frame_with_child. intros c. apply IH.
+Qed.
+
+(* and a read never modifies the tree *)
+Theorem read_pure p : forall t v k, let '(_, v', _) := run OSer p t v k in v' = v.
+Proof.
+  induction t as [lk|t IH|s a t IH|s lk cs IH|n t IH] using node_ind'; intros v k.
+  - cbn [run]. destruct (kfin k); simpl; [|reflexivity]. destruct lk; reflexivity.
+  - cbn [run]. destruct v as [x|b c|vs|act c]; simpl; try reflexivity.
+    destruct (b OSer) as [[|m]|]; simpl; [reflexivity|reflexivity|].
+    specialize (IH c k). destruct (run OSer p t c k) as [[r c'] lg]. subst. reflexivity.
+  - cbn [run]. unfold with_child. destruct s, v as [x|b c|vs|act c]; simpl; try reflexivity.
+    + destruct act as [j|]; [|reflexivity]. destruct j; simpl; [|reflexivity].
+      unfold arm. destruct (a_deny a OSer); [reflexivity|].
+      destruct (a_get a) as [[m|]|]; try reflexivity;
+        specialize (IH c k); destruct (run OSer p t c k) as [[r c'] lg]; subst; reflexivity.
+    + destruct vs as [|c vs]; simpl; [reflexivity|].
+      unfold arm. destruct (a_deny a OSer); [reflexivity|].
+      destruct (a_get a) as [[m|]|]; try reflexivity;
+        specialize (IH c k); destruct (run OSer p t c k) as [[r c'] lg]; subst; reflexivity.
+  - cbn [run]. destruct (knext k lk) as [i k'| |]; try reflexivity.
+    assert (G : forall c, let '(_, c', _) :=
+        (fix pick (cs : list (attrs * node)) (j : nat) {struct cs} : out :=
+           match cs with
+           | [] => (RErr Unreachable, c, [])
+           | (a, t') :: r => match j with
+                             | O => arm OSer a c (fun c => run OSer p t' c k')
+                             | S j' => pick r j' end
+           end) cs (N.to_nat i) in c' = c).
+    { intros c. generalize (N.to_nat i). induction IH as [|[a t'] r Ht _ IHr]; intros j; [reflexivity|].
+      destruct j as [|j]; [|apply IHr].
+      unfold arm. destruct (a_deny a OSer); [reflexivity|].
+      destruct (a_get a) as [[m|]|]; try reflexivity;
+        specialize (Ht c k'); simpl in Ht; destruct (run OSer p t' c k') as [[r0 c'] lg]; subst; reflexivity. }
+    unfold incr_out, with_child. destruct s, v as [x|b c|vs|act c]; simpl; try reflexivity.
+    + destruct act as [j|]; [|reflexivity]. destruct (Nat.eqb (N.to_nat i) j); [|reflexivity].
+      specialize (G c). destruct (_ cs (N.to_nat i)) as [[r c'] lg]. subst. reflexivity.
+    + destruct (nth_error vs (N.to_nat i)) as [c|] eqn:E; [|reflexivity].
+      specialize (G c). destruct (_ cs (N.to_nat i)) as [[r c'] lg]. subst.
+      rewrite set_nth_same by exact E. reflexivity.
+  - cbn [run]. destruct (knext k (Homog n)) as [i k'| |]; try reflexivity.
+    unfold incr_out, with_child. destruct v as [x|b c|vs|act c]; simpl; try reflexivity.
+    destruct (nth_error vs (N.to_nat i)) as [c|] eqn:E; [|reflexivity].
+    specialize (IH c k'). destruct (run OSer p t c k') as [[r c'] lg]. subst.
+    rewrite set_nth_same by exact E. reflexivity.
+Qed.
 End Interp.
 
 Print Assumptions walk_is_run.
+Print Assumptions write_frame.
+Print Assumptions read_pure.
